@@ -5,7 +5,7 @@ from __future__ import annotations
 from .absint import Interp, canon_ext
 from .index import AnalysisError
 from .poly import Rat
-from .values import Bound, Builtin, Closure, ExtRef, Obj, Partial
+from .values import AbsVal, Bound, Builtin, Closure, ExtRef, Obj, Partial, Unknown
 
 
 def stub_repo_calls(interp: Interp, table: dict):
@@ -68,3 +68,55 @@ def mk_material(interp: Interp, **kw) -> Obj:
     """Instantiate fdtdx.materials.Material through its own __init__ (normalisation included)."""
     ci = interp.index.cls("fdtdx.materials.Material")
     return interp.instantiate(ci, [], kw)
+
+
+class Written:
+    """Result of `state[key].at[idx].set/add(value)` on a recording detector state."""
+
+    def __init__(self, key, idx, mode, value):
+        self.key, self.idx, self.mode, self.value = key, idx, mode, value
+
+    def __repr__(self):
+        return f"<Written {self.key}[{self.idx!r}].{self.mode}>"
+
+
+class _RecAt(AbsVal):
+    def __init__(self, key, idx=None):
+        self.key, self.idx = key, idx
+
+    def av_getitem(self, idx):
+        return _RecAt(self.key, idx)
+
+    def av_getattr(self, name):
+        if name in ("set", "add", "multiply", "min", "max"):
+            return Builtin(name, lambda it, a, k, _n=name: Written(self.key, self.idx, _n, a[0]))
+        raise AnalysisError(f"state.at[...].{name}")
+
+
+class _RecArr(AbsVal):
+    is_array = True
+
+    def __init__(self, key):
+        self.key = key
+
+    def av_getattr(self, name):
+        if name == "at":
+            return _RecAt(self.key)
+        if name == "dtype":
+            return Unknown(f"{self.key}.dtype")
+        raise AnalysisError(f"previous detector state .{name} is read (only .at[idx].set/add writes are modelled)")
+
+    def av_getitem(self, idx):
+        return Rat.atom(("state", self.key, repr(idx)))
+
+
+class RecState(AbsVal):
+    """Detector state dict that records writes: state[k].at[i].set(v) evaluates to Written(k, i, 'set', v)."""
+
+    def av_getitem(self, key):
+        return _RecArr(key)
+
+    def av_getattr(self, name):
+        if name == "copy":
+            return Builtin(name, lambda it, a, k: self)
+        raise AnalysisError(f"state.{name}")
